@@ -3,6 +3,7 @@ package dsim
 // C07 — replication: replicas apply the leader's writes identically, in order.
 
 import (
+	"os"
 	"encoding/json"
 	"fmt"
 	"math/rand"
@@ -581,6 +582,20 @@ func (a *c07Run) body() {
 		}
 		a.checkPanics()
 		a.noteExpired()
+		if os.Getenv("DSIM_DEBUG_C07MEM") != "" {
+			fmt.Printf("after op %d %v:", i, op)
+			for j := 0; j < a.nodes; j++ {
+				if a.alive[j] {
+					st := a.insts[j].DB.VerifDump()
+					n := 0
+					for _, d := range st.DBs {
+						n += len(d)
+					}
+					fmt.Printf(" %s(applied %d, mem %d, keys %d)", nodeID(j), a.c.nodes[nodeID(j)].applied, st.MemUsed, n)
+				}
+			}
+			fmt.Println()
+		}
 	}
 	if a.o.Sig != "" {
 		return
@@ -598,6 +613,18 @@ func (a *c07Run) body() {
 	for j := 0; j < a.nodes; j++ {
 		if !a.alive[j] {
 			a.bootNode(j)
+		}
+	}
+	if os.Getenv("DSIM_DEBUG_C07MEM") != "" {
+		a.drain()
+		for j := 0; j < a.nodes; j++ {
+			st := a.insts[j].DB.VerifDump()
+			fmt.Printf("before final %s applied %d mem %d probes %v: %v\n", nodeID(j), a.c.nodes[nodeID(j)].applied, st.MemUsed, a.s.Stats.Probes, DataMap(st, false))
+			for db, d := range st.DBs {
+				for k, e := range d {
+					fmt.Printf("    %d/%s mem=%d\n", db, k, e.Mem)
+				}
+			}
 		}
 	}
 	// bounded liveness: a new write on the leader is acknowledged and reaches every node
